@@ -104,3 +104,41 @@ def tc_sec_header(service: IntRange(0, 255), subservice: IntRange(0, 255), sourc
     ensures("short-iff", implies(len(data) < 5, o.raised(BytesTooShortError)))
     if len(data) >= 5:
         ensures("version-iff", o.ok == (bits(data[0], 7, 4) == 2))
+
+
+@obligation(["C02", "C04", "C11"], "PusTc/setters", verifies=[M + "PusTc.app_data", M + "PusTc.seq_count", M + "PusTc.apid", M + "PusTc.source_id",
+                                                              M + "PusTc.to_space_packet", M + "PusTc.pack"])
+def tc_setters(service: IntRange(0, 255), subservice: IntRange(0, 255), apid: IntRange(0, 2047), count: IntRange(0, 16383),
+               source_id: IntRange(0, 65535), ack: IntRange(0, 15), app: BytesLen(0, MAX_APP),
+               which: Choice("app_data", "seq_count", "apid", "source_id"), new_app: BytesLen(0, MAX_APP), new_int: Int,
+               packed_before: Bool):
+    """whatever was set after construction (and whether or not the packet was packed before, which fills the CRC cache):
+    reported length, length field, octets, CRC trailer and the space-packet view are those of a freshly built telecommand"""
+    tc = PusTc(service, subservice, apid, app, count, source_id, ack)
+    if packed_before:
+        tc.pack()
+    if which == "app_data":
+        tc.app_data = new_app
+        fresh = PusTc(service, subservice, apid, new_app, count, source_id, ack)
+    elif which == "seq_count":
+        requires(both(0 <= new_int, new_int <= 16383))
+        tc.seq_count = new_int
+        fresh = PusTc(service, subservice, apid, app, new_int, source_id, ack)
+    elif which == "apid":
+        requires(both(0 <= new_int, new_int <= 2047))
+        tc.apid = new_int
+        fresh = PusTc(service, subservice, new_int, app, count, source_id, ack)
+    else:
+        requires(both(0 <= new_int, new_int <= 65535))
+        tc.source_id = new_int
+        fresh = PusTc(service, subservice, apid, app, count, new_int, ack)
+    expected = fresh.pack()
+    view = tc.to_space_packet().pack()
+    ensures("space-packet-view-as-fresh", view == expected)
+    r = tc.pack()
+    ensures("octets-as-fresh", r == expected)
+    ensures("reported-length", tc.packet_len == len(r))
+    ensures("length-field", tc.sp_header.data_len == len(r) - 7)
+    ensures("crc-residue", crc16(r) == 0)
+    ensures("equal-to-fresh", tc == fresh)
+    ensures("view-after-pack", tc.to_space_packet().pack() == expected)
